@@ -644,7 +644,400 @@ Proof.
   intros H.
   apply (f7_no_centre f7_reflect (V2 0 (-1)) (aff_apply (placement_map f7_reflect) (V2 1 1))); [left; split; reflexivity|].
   destruct H as (p & q & el & wo0 & wo1 & N1 & N2 & N3 & N4 & N5 & C0 & C1).
-  exists p, q, el, wo0, wo1. repeat split; try assumption.
+  exists p, q, el, wo0, wo1.
+  refine (conj N1 (conj N2 (conj N3 (conj N4 (conj N5 (conj _ C1)))))).
   eapply centre_rel_proper; [apply veq_refl|apply veq_refl|reflexivity| |exact C0].
   split; vm_compute; reflexivity.
 Qed.
+
+Theorem flexpath_transform_negative_magnification_refuted :
+  exists T f e k c0 c1,
+    angle_ok (p_rot T) /\ p_xrefl T = false /\ fp_centres f e k c0 c1 /\
+    ~ fp_centres (flexpath_transform T f) e k (aff_apply (placement_map T) c0) (aff_apply (placement_map T) c1).
+Proof.
+  exists f7_negmag, f7_path, 0%nat, 0%nat, (V2 0 1), (V2 1 1).
+  split; [reflexivity|]. split; [reflexivity|]. split; [apply f7_path_centres|].
+  intros H.
+  apply (f7_no_centre f7_negmag (V2 0 (-1)) (aff_apply (placement_map f7_negmag) (V2 1 1))); [right; split; reflexivity|].
+  destruct H as (p & q & el & wo0 & wo1 & N1 & N2 & N3 & N4 & N5 & C0 & C1).
+  exists p, q, el, wo0, wo1.
+  refine (conj N1 (conj N2 (conj N3 (conj N4 (conj N5 (conj _ C1)))))).
+  eapply centre_rel_proper; [apply veq_refl|apply veq_refl|reflexivity| |exact C0].
+  split; vm_compute; reflexivity.
+Qed.
+
+(* the same two witnesses at the level of parameters: the offsets (and, for a negative
+   magnification, the half widths) FlexPath::transform stores differ from the required ones *)
+Definition fp_offsets (f : flexpath) : list (list Q) := map (fun el => map vy (fe_hwo el)) (fp_elems f).
+Definition fp_half_widths (f : flexpath) : list (list Q) := map (fun el => map vx (fe_hwo el)) (fp_elems f).
+Theorem flexpath_transform_params_refuted :
+  fp_offsets (flexpath_transform f7_reflect f7_path) = ([1; 1] :: nil) /\
+  fp_offsets (flexpath_transform_required f7_reflect f7_path) = ([-1; -1] :: nil) /\
+  map (map Qred) (fp_offsets (flexpath_transform f7_negmag f7_path)) = ([-1; -1] :: nil) /\
+  map (map Qred) (fp_offsets (flexpath_transform_required f7_negmag f7_path)) = ([1; 1] :: nil) /\
+  map (map Qred) (fp_half_widths (flexpath_transform f7_negmag f7_path)) = ([-1#2; -1#2] :: nil) /\
+  map (map Qred) (fp_half_widths (flexpath_transform_required f7_negmag f7_path)) = ([1#2; 1#2] :: nil).
+Proof. vm_compute. repeat split. Qed.
+
+(* ------------------------------------------------------------------ RobustPath *)
+Definition op_ok (o : op) : Prop :=
+  match o with
+  | OMirror p0 p1 => mirror_degenerate p0 p1 = false
+  | ORotate a _ => angle_ok a
+  | OTransform T => angle_ok (p_rot T)
+  | _ => True
+  end.
+
+Lemma rp_translate_trafo v r :
+  aff_eq (rp_trafo (rp_translate v r)) (aff_compose (translate_map v) (rp_trafo r)).
+Proof. unfold rp_translate, aff_compose, translate_map; repeat split; simpl; ring. Qed.
+
+Lemma rp_transform_trafo T r :
+  aff_eq (rp_trafo (rp_transform T r)) (aff_compose (placement_map T) (rp_trafo r)).
+Proof.
+  unfold rp_transform, rp_translate, rp_simple_rotate, rp_x_reflection, rp_simple_scale,
+    aff_compose, placement_map, rsign.
+  destruct (p_xrefl T); repeat split; simpl; ring.
+Qed.
+
+Lemma Qeq_bool_morph x y : x == y -> Qeq_bool x 0 = Qeq_bool y 0.
+Proof.
+  intros H. destruct (Qeq_bool x 0) eqn:E1, (Qeq_bool y 0) eqn:E2; try reflexivity.
+  - apply Qeq_bool_eq in E1. apply Qeq_bool_neq in E2. exfalso; apply E2. rewrite <- H; exact E1.
+  - apply Qeq_bool_eq in E2. apply Qeq_bool_neq in E1. exfalso; apply E1. rewrite H; exact E2.
+Qed.
+
+Lemma rp_mirror_trafo p0 p1 r :
+  mirror_degenerate p0 p1 = false ->
+  aff_eq (rp_trafo (rp_mirror p0 p1 r)) (aff_compose (mirror_map p0 p1) (rp_trafo r)).
+Proof.
+  intros H. pose proof (mirror_nondeg _ _ H) as Hn.
+  assert (Hn' : ~ (vx p0 - vx p1) * (vx p0 - vx p1) + (vy p0 - vy p1) * (vy p0 - vy p1) == 0).
+  { intros E; apply Hn. rewrite <- E. ring. }
+  unfold mirror_map. unfold mirror_degenerate in H. rewrite H.
+  unfold rp_mirror.
+  assert (E : Qeq_bool (length_sq (vsub p0 p1)) 0 = false).
+  { rewrite <- H. apply Qeq_bool_morph. unfold length_sq, inner, vsub; simpl; ring. }
+  rewrite E.
+  unfold rp_translate, aff_compose, length_sq, inner, vsub, vneg; repeat split; simpl; field;
+  first [exact Hn | exact Hn' | (split; first [exact Hn|exact Hn'])].
+Qed.
+
+(* every operation on a RobustPath composes its map onto trafo: the spine (and with it every
+   evaluated point subpath.eval(u, trafo)) moves as the affine map says *)
+Theorem robustpath_op_trafo_lemma o r :
+  op_ok o -> aff_eq (rp_trafo (rp_apply_op o r)) (aff_compose (op_map o) (rp_trafo r)).
+Proof.
+  destruct o; simpl; intros Hok.
+  - apply rp_translate_trafo.
+  - unfold rp_scale, rp_translate, rp_simple_scale, aff_compose, scale_map, vscale; repeat split; simpl; ring.
+  - apply rp_mirror_trafo; exact Hok.
+  - unfold rp_rotate, rp_translate, rp_simple_rotate, aff_compose, rotate_map, vneg; repeat split; simpl; ring.
+  - apply rp_transform_trafo.
+Qed.
+
+(* the orientation sign and the scale factor |k| of each operation *)
+Definition op_reverses (o : op) : bool :=
+  match o with
+  | OMirror _ _ => true
+  | OTransform T => p_xrefl T
+  | _ => false
+  end.
+Definition op_factor (o : op) : Q :=
+  match o with
+  | OScale s _ => Qabs s
+  | OTransform T => Qabs (p_mag T)
+  | _ => 1
+  end.
+
+(* offset_scale picks up exactly r * |k|; width_scale picks up |k| iff scale_width *)
+Theorem robustpath_op_scales_lemma o r :
+  op_ok o ->
+  rp_offset_scale (rp_apply_op o r) == rp_offset_scale r * (rsign (op_reverses o) * op_factor o) /\
+  rp_width_scale (rp_apply_op o r) == rp_width_scale r * (if rp_scale_width r then op_factor o else 1) /\
+  rp_scale_width (rp_apply_op o r) = rp_scale_width r.
+Proof.
+  destruct o; simpl; intros Hok; unfold rsign.
+  - repeat split; try ring. destruct (rp_scale_width r); ring.
+  - repeat split; try ring. destruct (rp_scale_width r); ring.
+  - repeat split; try ring. destruct (rp_scale_width r); ring.
+  - repeat split; try ring. destruct (rp_scale_width r); ring.
+  - unfold rp_transform. destruct (p_xrefl T); simpl; repeat split; try ring;
+    destruct (rp_scale_width r); ring.
+Qed.
+
+Lemma op_similarity o :
+  op_ok o -> exists u w, similarity (op_map o) (op_reverses o) u w /\ op_factor o * op_factor o == u * u + w * w.
+Proof.
+  destruct o; simpl; intros Hok.
+  - exists 1, 0. split; [apply similarity_translate|reflexivity].
+  - exists s, 0. split; [apply similarity_scale|]. rewrite Qabs_sq. ring.
+  - eexists _, _. split; [apply similarity_mirror; exact Hok|]. apply mirror_unit; exact Hok.
+  - exists (acos a), (asin a). split; [apply similarity_rotate|]. unfold angle_ok in Hok. rewrite Hok. reflexivity.
+  - eexists _, _. split; [apply similarity_placement|]. rewrite Qabs_sq.
+    transitivity (p_mag T * p_mag T * (acos (p_rot T) * acos (p_rot T) + asin (p_rot T) * asin (p_rot T))); [|ring].
+    unfold angle_ok in Hok. rewrite Hok. ring.
+Qed.
+
+Lemma op_factor_nonneg o : 0 <= op_factor o.
+Proof. destruct o; simpl; try discriminate; apply Qabs_nonneg. Qed.
+
+(* RobustPath::center_position(u) = spine_position(u) + interp(offset,u)*offset_scale * n where
+   spine_position = trafo(x), n = normalised ortho(trafo_linear(g)), for the untransformed
+   sub-path point x = subpath.eval(u) and gradient g = subpath.gradient(u), offset value `ov`. *)
+Definition rp_centre (r : robustpath) (x g : Vec2) (ov : Q) (c : Vec2) : Prop :=
+  centre_rel (aff_apply (rp_trafo r) x) (aff_linear (rp_trafo r) g) (ov * rp_offset_scale r) c.
+
+Lemma aff_linear_compose f g p : veq (aff_linear (aff_compose f g) p) (aff_linear f (aff_linear g p)).
+Proof. unfold aff_linear, aff_compose; split; simpl; ring. Qed.
+Lemma aff_linear_proper f g p : aff_eq f g -> veq (aff_linear f p) (aff_linear g p).
+Proof.
+  intros (H1 & H2 & H3 & H4 & _). unfold aff_linear; split; simpl; rewrite ?H1, ?H2, ?H3, ?H4; reflexivity.
+Qed.
+
+(* centre (op e) u = op_map (centre e u) for every similarity operation, including negative
+   scale factors and reflections *)
+Theorem robustpath_op_centre_lemma o r x g ov c :
+  op_ok o -> rp_centre r x g ov c -> rp_centre (rp_apply_op o r) x g ov (aff_apply (op_map o) c).
+Proof.
+  intros Hok Hc. unfold rp_centre in *.
+  destruct (op_similarity o Hok) as (u & w & HS & Hkk).
+  pose proof (robustpath_op_trafo_lemma o r Hok) as Ht.
+  destruct (robustpath_op_scales_lemma o r Hok) as (Hos & _ & _).
+  eapply centre_rel_proper;
+    [| | | apply veq_refl
+     | eapply (centre_rel_similarity_lemma (op_map o) (op_reverses o) u w (op_factor o));
+       [exact HS|apply op_factor_nonneg|exact Hkk|exact Hc]].
+  - eapply veq_trans; [|apply aff_apply_proper; [symmetry; exact Ht|apply veq_refl]].
+    symmetry; apply aff_compose_apply_lemma.
+  - eapply veq_trans; [|apply aff_linear_proper; symmetry; exact Ht].
+    symmetry; apply aff_linear_compose.
+  - rewrite Hos. ring.
+Qed.
+
+Theorem robustpath_transform_centre_lemma T r x g ov c :
+  angle_ok (p_rot T) -> rp_centre r x g ov c ->
+  rp_centre (rp_transform T r) x g ov (aff_apply (placement_map T) c).
+Proof. intros Ha. apply (robustpath_op_centre_lemma (OTransform T)). exact Ha. Qed.
+
+Theorem robustpath_sequence_trafo_lemma ops : forall r,
+  Forall op_ok ops ->
+  aff_eq (rp_trafo (rp_apply_ops ops r)) (aff_compose (ops_map ops) (rp_trafo r)).
+Proof.
+  unfold rp_apply_ops, ops_map.
+  assert (G : forall ops r A r0, Forall op_ok ops ->
+     aff_eq (rp_trafo r) (aff_compose A (rp_trafo r0)) ->
+     aff_eq (rp_trafo (fold_left (fun acc o => rp_apply_op o acc) ops r))
+            (aff_compose (fold_left (fun acc o => aff_compose (op_map o) acc) ops A) (rp_trafo r0))).
+  { clear ops. induction ops as [|o ops IH]; intros r A r0 Hok H; simpl; [exact H|].
+    inversion Hok; subst. apply IH; [assumption|].
+    rewrite robustpath_op_trafo_lemma by assumption. rewrite H. symmetry; apply aff_compose_assoc. }
+  intros r Hok. apply G; [exact Hok|]. symmetry; apply aff_compose_id_l.
+Qed.
+
+(* RobustPath::mirror across a degenerate line (p0 = p1) is not the identity (Polygon::mirror and
+   FlexPath::mirror return early): the linear part of trafo is zeroed *)
+Example rp_mirror_degenerate_collapses :
+  rp_trafo (rp_mirror (V2 1 2) (V2 1 2) (RP aff_id 1 1 [] true)) = Aff 0 0 0 0 (0 + 1) (0 + 2)
+  \/ aff_eq (rp_trafo (rp_mirror (V2 1 2) (V2 1 2) (RP aff_id 1 1 [] true))) (Aff 0 0 0 0 1 2).
+Proof. right. vm_compute. repeat split. Qed.
+
+(* ------------------------------------------------------------------ Repetition::transform *)
+Definition rep_linear (mag : Q) (x_refl : bool) (rot : angle) : Vec2 -> Vec2 :=
+  aff_linear (placement_map (Pl vzero rot mag x_refl)).
+
+Lemma lattice_pointwise (f g : nat -> nat -> Vec2) cols rows :
+  (forall i j, veq (f i j) (g i j)) ->
+  poly_eq (flat_map (fun i => map (f i) (seq 0 rows)) (seq 0 cols))
+          (flat_map (fun i => map (g i) (seq 0 rows)) (seq 0 cols)).
+Proof.
+  intros H. generalize (seq 0 rows) as R. intros R. generalize (seq 0 cols) as C. intros C.
+  induction C as [|i l IH]; simpl; [constructor|].
+  apply Forall2_app; [|exact IH].
+  clear IH. induction R; simpl; constructor; auto.
+Qed.
+
+Lemma map_lattice (h : Vec2 -> Vec2) (f : nat -> nat -> Vec2) cols rows :
+  map h (flat_map (fun i => map (f i) (seq 0 rows)) (seq 0 cols)) =
+  flat_map (fun i => map (fun j => h (f i j)) (seq 0 rows)) (seq 0 cols).
+Proof.
+  induction (seq 0 cols) as [|i l IH]; simpl; [reflexivity|].
+  rewrite map_app, map_map, IH. reflexivity.
+Qed.
+
+Lemma qneq1_false m : qneq1 m = false -> m == 1.
+Proof. unfold qneq1; intros H. apply negb_false_iff in H. apply Qeq_bool_eq; exact H. Qed.
+Lemma angle_zero_true a : angle_is_zero a = true -> acos a == 1 /\ asin a == 0.
+Proof. unfold angle_is_zero; intros H. apply andb_true_iff in H. destruct H; split; apply Qeq_bool_eq; assumption. Qed.
+
+Ltac rep_fin :=
+  unfold rep_linear, aff_linear, placement_map, rsign, vscale, cplx_mul, cplx_conj, vzero; split; simpl;
+  repeat match goal with H : _ == _ |- _ => rewrite !H; clear H end; ring.
+
+(* the offsets of the transformed repetition are the offsets moved by the LINEAR part of the
+   transform (magnify, reflect, rotate; no translation) *)
+Theorem repetition_transform_linear_lemma mag x_refl rot r :
+  poly_eq (rep_offsets (rep_transform mag x_refl rot r)) (map (rep_linear mag x_refl rot) (rep_offsets r)).
+Proof.
+  destruct r as [|cols rows sp|cols rows v1 v2|offs|cs|cs]; simpl.
+  - constructor.
+  - (* Rectangular *)
+    rewrite map_lattice.
+    destruct (qneq1 mag) eqn:Hm; [|apply qneq1_false in Hm];
+    destruct x_refl; simpl;
+    try (destruct (angle_is_zero rot) eqn:Hz; [apply angle_zero_true in Hz; destruct Hz as [Hc Hs]|]; simpl);
+    apply lattice_pointwise; intros i j; rep_fin.
+  - (* Regular *)
+    rewrite map_lattice.
+    destruct (qneq1 mag) eqn:Hm; [|apply qneq1_false in Hm];
+    destruct x_refl; simpl;
+    (destruct (angle_is_zero rot) eqn:Hz; [apply angle_zero_true in Hz; destruct Hz as [Hc Hs]|]; simpl);
+    apply lattice_pointwise; intros i j; rep_fin.
+  - (* Explicit *)
+    destruct (angle_is_zero rot) eqn:Hz; [apply angle_zero_true in Hz; destruct Hz as [Hc Hs]|]; simpl.
+    + destruct x_refl; simpl; (destruct (qneq1 mag) eqn:Hm; [|apply qneq1_false in Hm]); simpl;
+      (constructor; [rep_fin|]); rewrite ?map_map; try (apply map_pointwise; intros p; rep_fin).
+      induction offs; simpl; constructor; auto. rep_fin.
+    + destruct x_refl; simpl; (constructor; [rep_fin|]); rewrite ?map_map; apply map_pointwise; intros p; rep_fin.
+  - (* ExplicitX *)
+    destruct (angle_is_zero rot) eqn:Hz; [apply angle_zero_true in Hz; destruct Hz as [Hc Hs]|]; simpl.
+    + (destruct (qneq1 mag) eqn:Hm; [|apply qneq1_false in Hm]); simpl;
+      (constructor; [rep_fin|]); rewrite ?map_map;
+      (induction cs; simpl; constructor; auto); destruct x_refl; rep_fin.
+    + (constructor; [rep_fin|]); rewrite ?map_map.
+      induction cs; simpl; constructor; auto. destruct x_refl; rep_fin.
+  - (* ExplicitY *)
+    destruct (angle_is_zero rot) eqn:Hz; [apply angle_zero_true in Hz; destruct Hz as [Hc Hs]|]; simpl.
+    + destruct x_refl; simpl; [|destruct (qneq1 mag) eqn:Hm; [|apply qneq1_false in Hm]]; simpl;
+      (constructor; [rep_fin|]); rewrite ?map_map;
+      (induction cs; simpl; constructor; auto); rep_fin.
+    + (constructor; [destruct x_refl; rep_fin|]); rewrite ?map_map.
+      induction cs; simpl; constructor; auto. destruct x_refl; rep_fin.
+Qed.
+
+(* ------------------------------------------------------------------ elements with a repetition (F8) *)
+Definition polys_eq (a b : list polygon) : Prop := Forall2 poly_eq a b.
+
+(* what `transform` would have to do to the attached repetition *)
+Definition rpolygon_transform_required (T : placement) (e : rpolygon) : rpolygon :=
+  RPoly (polygon_transform T (rpo_pts e)) (rep_transform (p_mag T) (p_xrefl T) (p_rot T) (rpo_rep e)).
+
+Lemma pt_transform_translate T o p :
+  veq (pt_transform T (pt_translate o p))
+      (pt_translate (rep_linear (p_mag T) (p_xrefl T) (p_rot T) o) (pt_transform T p)).
+Proof.
+  unfold pt_transform, pt_translate, rep_linear, aff_linear, placement_map, vadd, vscale, rsign.
+  destruct (p_xrefl T); split; simpl; ring.
+Qed.
+
+Lemma polygon_translate_proper o o' a b :
+  veq o o' -> poly_eq a b -> poly_eq (polygon_translate o a) (polygon_translate o' b).
+Proof.
+  intros [H1 H2] H. unfold polygon_translate. apply map_poly_eq; [|exact H].
+  intros p q [K1 K2]. unfold pt_translate, vadd; split; simpl; rewrite ?H1, ?H2, ?K1, ?K2; reflexivity.
+Qed.
+
+Lemma rep_transform_none m x a r : rep_transform m x a r = RNone <-> r = RNone.
+Proof.
+  split; [|intros ->; reflexivity].
+  destruct r; simpl; try reflexivity; intros H;
+  repeat match type of H with
+         | (if ?c then _ else _) = _ => destruct c
+         | (match ?c with _ => _ end) = _ => destruct c
+         end; discriminate.
+Qed.
+
+(* with the repetition transformed by the linear part, the copies of the transformed element are
+   the images of the copies *)
+Lemma rpolygon_denote_some pts r :
+  r <> RNone -> rpolygon_denote (RPoly pts r) = map (fun o => polygon_translate o pts) (rep_offsets r).
+Proof. destruct r; try reflexivity. congruence. Qed.
+
+Theorem rpolygon_transform_required_denote_lemma T e :
+  polys_eq (rpolygon_denote (rpolygon_transform_required T e))
+           (map (polygon_transform T) (rpolygon_denote e)).
+Proof.
+  destruct e as [pts r]. unfold rpolygon_transform_required; cbn [rpo_pts rpo_rep].
+  assert (D : r = RNone \/ r <> RNone) by (destruct r; auto; right; discriminate).
+  destruct D as [->|Hr].
+  - simpl. constructor; [apply poly_eq_refl|constructor].
+  - rewrite !rpolygon_denote_some; [|exact Hr|intros E; apply rep_transform_none in E; contradiction].
+    rewrite map_map.
+    pose proof (repetition_transform_linear_lemma (p_mag T) (p_xrefl T) (p_rot T) r) as HL.
+    revert HL. generalize (rep_offsets (rep_transform (p_mag T) (p_xrefl T) (p_rot T) r)) as L'.
+    generalize (rep_offsets r) as L. intros L.
+    induction L as [|o L IH]; intros L' HL; inversion HL; subst; simpl; constructor.
+    + eapply poly_eq_trans; [apply polygon_translate_proper; [eassumption|apply poly_eq_refl]|].
+      unfold polygon_translate, polygon_transform; rewrite !map_map; apply map_pointwise.
+      intros p; symmetry; apply pt_transform_translate.
+    + apply IH; assumption.
+Qed.
+
+(* boolean comparison, to refute equalities by computation *)
+Fixpoint list_eqb {A} (eqb : A -> A -> bool) (l1 l2 : list A) : bool :=
+  match l1, l2 with
+  | [], [] => true
+  | a :: t1, b :: t2 => eqb a b && list_eqb eqb t1 t2
+  | _, _ => false
+  end.
+Lemma list_eqb_complete {A} (R : A -> A -> Prop) eqb l1 l2 :
+  (forall a b, R a b -> eqb a b = true) -> Forall2 R l1 l2 -> list_eqb eqb l1 l2 = true.
+Proof. intros H; induction 1; simpl; [reflexivity|]. rewrite (H _ _ H0), IHForall2. reflexivity. Qed.
+Lemma veqb_complete a b : veq a b -> veqb a b = true.
+Proof. intros [H1 H2]. unfold veqb. apply Qeq_eq_bool in H1. apply Qeq_eq_bool in H2. rewrite H1, H2. reflexivity. Qed.
+Definition polys_eqb := list_eqb (list_eqb veqb).
+Lemma polys_eqb_complete a b : polys_eq a b -> polys_eqb a b = true.
+Proof. apply list_eqb_complete. intros x y. apply list_eqb_complete. apply veqb_complete. Qed.
+
+(* F8: Polygon::transform (likewise FlexPath, RobustPath, Label, Reference ::transform) leaves the
+   repetition untouched: a unit square repeated twice along x at pitch 5, rotated by 90 degrees,
+   has its second copy at (5,0) instead of (0,5). *)
+Definition f8_elem : rpolygon := RPoly [V2 0 0; V2 1 0; V2 1 1; V2 0 1] (RRect 2 1 (V2 5 0)).
+Definition f8_rot90 : placement := Pl vzero a90 1 false.
+
+Theorem element_transform_repetition_refuted :
+  exists T e, angle_ok (p_rot T) /\
+    ~ polys_eq (rpolygon_denote (rpolygon_transform T e)) (map (polygon_transform T) (rpolygon_denote e)).
+Proof.
+  exists f8_rot90, f8_elem. split; [reflexivity|].
+  intros H. apply polys_eqb_complete in H. vm_compute in H. discriminate.
+Qed.
+
+Example f8_copies :
+  map (map vred) (rpolygon_denote (rpolygon_transform f8_rot90 f8_elem)) =
+    [[V2 0 0; V2 0 1; V2 (-1) 1; V2 (-1) 0]; [V2 5 0; V2 5 1; V2 4 1; V2 4 0]] /\
+  map (map vred) (map (polygon_transform f8_rot90) (rpolygon_denote f8_elem)) =
+    [[V2 0 0; V2 0 1; V2 (-1) 1; V2 (-1) 0]; [V2 0 5; V2 0 6; V2 (-1) 6; V2 (-1) 5]].
+Proof. vm_compute. split; reflexivity. Qed.
+
+(* ------------------------------------------------------------------ assumptions *)
+Print Assumptions polygon_translate_affine_lemma.
+Print Assumptions polygon_scale_affine_lemma.
+Print Assumptions polygon_mirror_affine_lemma.
+Print Assumptions polygon_mirror_is_reflection_lemma.
+Print Assumptions reflection_unique_lemma.
+Print Assumptions polygon_rotate_affine_lemma.
+Print Assumptions polygon_transform_affine_lemma.
+Print Assumptions reference_transform_compose_lemma.
+Print Assumptions reference_transform_fields_lemma.
+Print Assumptions transform_sequence_lemma.
+Print Assumptions reference_transform_sequence_lemma.
+Print Assumptions centre_rel_similarity_lemma.
+Print Assumptions centre_rel_offset_unique.
+Print Assumptions flexpath_translate_centre_lemma.
+Print Assumptions flexpath_scale_centre_lemma.
+Print Assumptions flexpath_mirror_centre_lemma.
+Print Assumptions flexpath_rotate_centre_lemma.
+Print Assumptions flexpath_transform_required_centre_lemma.
+Print Assumptions flexpath_transform_centre_partial.
+Print Assumptions flexpath_transform_refuted.
+Print Assumptions flexpath_transform_negative_magnification_refuted.
+Print Assumptions flexpath_transform_params_refuted.
+Print Assumptions robustpath_op_trafo_lemma.
+Print Assumptions robustpath_op_scales_lemma.
+Print Assumptions robustpath_op_centre_lemma.
+Print Assumptions robustpath_transform_centre_lemma.
+Print Assumptions robustpath_sequence_trafo_lemma.
+Print Assumptions repetition_transform_linear_lemma.
+Print Assumptions rpolygon_transform_required_denote_lemma.
+Print Assumptions element_transform_repetition_refuted.
